@@ -151,6 +151,18 @@ def make_source(draw, ident, profile="mixed", msm_cells=64, fixed=None):
             return w.scratch.pop("m_raw")
         if w.per_iter > 0:
             return draw_count(draw, width, (BUDGET - used - w.tail_min) // w.per_iter, profile)
+        if width == 8 and model.tables()["F"][key][0] in ("STR", "CHA"):
+            q = w.scratch.setdefault("textq", [])
+            if q:
+                return q.pop(0)
+            if draw(st.integers(0, 9)) == 0:
+                # whole sequences: the UTF-8 byte order mark, CR LF, a three-byte character, NUL padding
+                q.extend(draw(st.sampled_from([[0xEF, 0xBB, 0xBF], [0x0D, 0x0A], [0xE2, 0x82, 0xAC], [0x00, 0x00], [0x0A, 0x0D]])))
+                return q.pop(0)
+        if width == 8 and model.tables()["F"][key][0] in ("STR", "CHA") and draw(st.booleans()):
+            # text: code units that mean something to text handling (NUL, CR, LF, blank, the UTF-8 byte order mark,
+            # lead / continuation bytes, 0xFF), so that runs such as CR LF or EF BB BF turn up in generated text
+            return draw(st.sampled_from([0x00, 0x0D, 0x0A, 0x0D, 0x0A, 0x20, 0xEF, 0xBB, 0xBF, 0xC3, 0xA9, 0xFF, 0x41, 0x7F]))
         return draw_raw(draw, width)
 
     return src
